@@ -21,6 +21,81 @@ func checkC17(c *Ctx, r *Report) {
 	r.floor("R17.2", 2)
 	r.floor("R17.3", 3)
 	r.floor("R17.8", 1)
+	// R17.12: the reply of a request whose handler ran is not cut off by a stale deadline: where the
+	// connection loop sets a write deadline before writing the reply, the deadline is computed
+	// from a clock reading (time.Now) taken after the assembler (and with it the handler) returned
+	{
+		h := c.fnMust("server", "*connection.handle")
+		var recvBlk *ssa.BasicBlock
+		var recvInstr ssa.Instruction
+		for _, b := range h.Blocks {
+			for _, in := range b.Instrs {
+				if call, ok := in.(*ssa.Call); ok && call.Common().IsInvoke() && call.Common().Method.Name() == "ReceiveRead" {
+					recvBlk, recvInstr = b, in
+				}
+			}
+		}
+		n := 0
+		for _, b := range h.Blocks {
+			for _, in := range b.Instrs {
+				call, ok := in.(*ssa.Call)
+				if !ok || !call.Common().IsInvoke() || call.Common().Method.Name() != "SetWriteDeadline" {
+					continue
+				}
+				n++
+				r.instance("R17.12", 1)
+				// clock readings in the backward slice of the argument
+				fresh, stale := 0, 0
+				seen := map[ssa.Value]bool{}
+				var walk func(v ssa.Value, depth int)
+				walk = func(v ssa.Value, depth int) {
+					if v == nil || seen[v] || depth > 10 {
+						return
+					}
+					seen[v] = true
+					if cl, ok := v.(*ssa.Call); ok {
+						if sc := cl.Common().StaticCallee(); sc != nil && sc.String() == "time.Now" {
+							if recvBlk != nil && (recvBlk.Dominates(cl.Block()) && (recvBlk != cl.Block() || before(recvInstr, cl))) {
+								fresh++
+							} else {
+								stale++
+							}
+							return
+						}
+					}
+					if ph, ok := v.(*ssa.Phi); ok {
+						for _, e := range ph.Edges {
+							walk(e, depth+1)
+						}
+						return
+					}
+					if in, ok := v.(ssa.Instruction); ok {
+						for _, op := range in.Operands(nil) {
+							if op != nil && *op != nil {
+								walk(*op, depth+1)
+							}
+						}
+					}
+				}
+				for _, a := range call.Common().Args {
+					walk(a, 0)
+				}
+				if recvBlk == nil || !recvBlk.Dominates(b) {
+					continue // a deadline not related to writing the reply
+				}
+				if fresh >= 1 && stale == 0 {
+					r.ok("R17.12", fnID(h), "the write deadline of a reply is computed from time.Now() read after the assembler returned", c.pos(call.Pos()), true)
+				} else {
+					r.fail("R17.12", fnID(h), "the write deadline of a reply is computed from a time taken before the handler ran (a slow handler's reply then fails with an expired deadline)", c.pos(call.Pos()), fmt.Sprintf("clock readings after the assembler call: %d, before: %d", fresh, stale), "stale-write-deadline")
+				}
+			}
+		}
+		if n == 0 {
+			r.instance("R17.12", 1)
+			r.ok("R17.12", fnID(h), "the connection loop sets no write deadline", c.pos(h.Pos()), false)
+		}
+		r.floor("R17.12", 1)
+	}
 	// R17.11: connections are served concurrently: nothing on the per-connection path writes
 	// package-level state (C16 R16.6), which would be a data race between two clients
 	{
@@ -44,7 +119,7 @@ func checkC17(c *Ctx, r *Report) {
 			}
 		}
 		if step != nil {
-			c15Loop(c, tmp, c.fnMust("server", "*ModbusTCPAssembler.ReceiveRead"), step)
+			c15Loop(c, tmp, assemblerReceiveRead(c), step)
 			c15Conn(c, tmp, c.fnMust("server", "*connection.handle"))
 		}
 		r.instance("R17.10", copyItems(tmp, r, "R15.3", "R17.10")+copyItems(tmp, r, "R15.4", "R17.10"))
